@@ -323,10 +323,13 @@ def plans(backend, n, tier, family):
     allcons = constraints(n)
     rhs = rhs_set(n, tier, family == 'ill')
     lhs0 = lhs0_set(n, tier)
-    if family in ('sym3', 'upper3', 'cyc3'):  # thorough-only 3x3 classes: every constraint pattern, fewer numerical knobs
+    if family in ('sym3', 'sym3-small', 'upper3', 'cyc3'):  # thorough-only 3x3 classes: every constraint pattern, fewer numerical knobs
         cfgs = cfgs[:4] if backend == 'numpy' else [cfgs[0], cfgs[2], cfgs[5], cfgs[7], cfgs[9]]
         return [dict(cons=allcons, rhs=rhs[:3], lhs0=lhs0[:2], cfgs=cfgs, tols=[(0., 0.), (1e-10, 0.), (0., 1e-3), (10., 0.)])]
     if tier == 'thorough':
+        if backend == 'scipy' and family == 'small':  # the scipy iterations are 3-5x slower per request: half of the tolerance grid
+            tols = [(a, r) for a, r in tols if (a, r) in ((0., 0.), (1e-10, 0.), (0., 1e-10), (1e-3, 0.), (0., 1e-3), (1e-3, 1e-10), (10., 0.), (0., 10.))]
+            rhs = rhs_set(n, 'quick')
         return [dict(cons=allcons, rhs=rhs, lhs0=lhs0, cfgs=cfgs, tols=tols)]
     # quick: P1 exercises the constraint / initial-guess handling, P2 the solver / tolerance handling
     somecons = [None, {'t': 'b', 'v': [True] + [False] * (n - 1)}, {'t': 'f', 'v': [None] * (n - 1) + [CV[n - 1]]}]
@@ -366,6 +369,7 @@ def explore_products(res, backend, mats, tier, family):
                                 if v:
                                     res.violation(v[0], '[{}] A={} {}: {}'.format(backend, Alist, _brief(c), v[1]), _wit(backend, Alist, [c]))
                                     continue
+                                res.count('traces_validated_against_impl')
                                 if _nontrivial(A, c):
                                     res.distinct('distinct_nontrivial', backend + repr(Alist) + ckey)
                                 if out[0] == 'returned' and (cons is None or cons['t'] == 'f'):
